@@ -128,6 +128,44 @@ fn boundary(ctx: &mut Ctx) {
             ctx.fail("c01-encode-to-writer-differs", &term_text(t)[..term_text(t).len().min(200)]);
         }
     }
+    for t in ts.iter().filter(|t| !matches!(t, OwnedTerm::Atom(a) if a.len() > 300)).take(60) {
+        writer(ctx, "boundary", t);
+    }
+}
+
+/// a writer that refuses everything
+struct Refusing;
+impl std::io::Write for Refusing {
+    fn write(&mut self, _: &[u8]) -> std::io::Result<usize> {
+        Err(std::io::Error::new(std::io::ErrorKind::Other, "refused"))
+    }
+    fn flush(&mut self) -> std::io::Result<()> {
+        Ok(())
+    }
+}
+
+/// `encode_to_writer` against its model: a writer that already holds a prefix and accepts, and one that refuses
+pub fn writer(ctx: &mut Ctx, tag: &str, t: &OwnedTerm) {
+    let tt = term_text(t);
+    let k = ctx.rng.below(4) as usize;
+    let prefix = ctx.rng.bytes(k);
+    let mut w = prefix.clone();
+    let r = match std::panic::catch_unwind(std::panic::AssertUnwindSafe(|| erltf::encode_to_writer(t, &mut w))) {
+        Ok(Ok(())) => format!("ok {}", hex(&w)),
+        Ok(Err(erltf::errors::EncodeError::IoError(_))) => "io".to_string(),
+        Ok(Err(_)) => "err".to_string(),
+        Err(_) => "panic".to_string(),
+    };
+    ctx.count("writer_accepting");
+    ctx.tie(tag, &format!("c01w {} {} 1", tt, hexarg(&prefix)), &r);
+    let r2 = match std::panic::catch_unwind(|| erltf::encode_to_writer(t, &mut Refusing)) {
+        Ok(Ok(())) => "ok".to_string(),
+        Ok(Err(erltf::errors::EncodeError::IoError(_))) => "io".to_string(),
+        Ok(Err(_)) => "err".to_string(),
+        Err(_) => "panic".to_string(),
+    };
+    ctx.count("writer_refusing");
+    ctx.tie(tag, &format!("c01w {} - 0", tt), &r2);
 }
 
 pub fn run(ctx: &mut Ctx) {
@@ -137,5 +175,8 @@ pub fn run(ctx: &mut Ctx) {
     for _ in 0..n {
         let t = gen_term(&mut ctx.rng, &cfg, 0);
         one(ctx, "gen", &t);
+        if ctx.rng.chance(1, if ctx.thorough { 60 } else { 8 }) {
+            writer(ctx, "gen", &t);
+        }
     }
 }
